@@ -125,6 +125,11 @@ package didnuts
 //@     && arg(call (ambassador).findKeyByThumbprint #1, 2) == controllerVerificationRelationships
 //@     && same(arg(1), proposedDIDDocument) && same(arg(2).Ref, transaction.Ref())
 //@   loop 2 invariant true
+//@   loop 3 invariant exists i int :: 0 <= i && i < len(didControllers) && same(didCtrl, didControllers[i])
+//@   call append #1 requires [candidates-are-capability-invocation-keys-of-a-resolved-controller] same(arg(0), controllerVerificationRelationships) && len(arg(1)) == 1
+//@        && (exists j int :: 0 <= j && j < len(didCtrl.CapabilityInvocation) && same(arg(1)[0], didCtrl.CapabilityInvocation[j]))
+//@        && (exists i int :: 0 <= i && i < len(didControllers) && same(didCtrl, didControllers[i]))
+//@        && isNilIface(ret(call (*ambassador).resolveControllers #1).1) && didControllers == ret(call (*ambassador).resolveControllers #1).0
 //@   ensures [success-only-if-stored] isNilIface(result) ==> did(call (didstore.Store).Add #1) && isNilIface(ret(call (didstore.Store).Add #1))
 
 // Non-database errors are fatal (never retried); success is reported only when the callback succeeded.
@@ -133,3 +138,69 @@ package didnuts
 //@   ensures [true-only-on-success] result.0 == true ==> isNilIface(result.1) && did(call (*ambassador).callback #1) && isNilIface(ret(call (*ambassador).callback #1))
 //@   ensures [callback-sees-the-event] arg(call (*ambassador).callback #1, 1) == event.Transaction && arg(call (*ambassador).callback #1, 2) == event.Payload
 //@   ensures [failure-is-an-error] !isNilIface(ret(call (*ambassador).callback #1)) ==> result.0 == false && !isNilIface(result.1)
+
+// ---- C09: Nuts rules for keys of a network document ----
+
+//@ func jwk.AssignKeyID
+//@   trusted
+//@   benign
+//@ func (jwk.Key).Remove
+//@   trusted
+//@   benign
+//@ func verifyDocumentEntryID
+//@   prop C09
+//@   assume-benign
+
+// The fragment is compared with the key id AssignKeyID calculates; AssignKeyID keeps a kid that is
+// already present (jwx: key.go), so the kid member must have been discarded from this key first.
+//@ func (verificationMethodValidator).verifyThumbprint
+//@   prop C09 C19
+//@   call jwk.AssignKeyID #1 requires [kid-member-discarded-first] isNilIface(ret(call (did.VerificationMethod).JWK #1).1)
+//@        && arg(0) == ret(call (did.VerificationMethod).JWK #1).0 && same(arg(call (did.VerificationMethod).JWK #1, 0), *method)
+//@        && did(call (jwk.Key).Remove #1) && arg(call (jwk.Key).Remove #1, 0) == arg(0) && arg(call (jwk.Key).Remove #1, 1) == jwk.KeyIDKey
+//@   ensures [fragment-is-the-calculated-key-id] isNilIface(result) ==> did(call jwk.AssignKeyID #1)
+//@        && ret(call (jwk.Key).KeyID #1) == method.ID.Fragment && arg(call (jwk.Key).KeyID #1, 0) == arg(call jwk.AssignKeyID #1, 0)
+
+// Every listed method AND every method reachable through a verification relationship (embedded
+// methods are not listed) has an id prefixed by the DID with a fragment, and passes verifyThumbprint.
+//@ func (verificationMethodValidator).Validate
+//@   prop C09 C19
+//@   requires forall k int :: 0 <= k && k < len(document.VerificationMethod) ==> document.VerificationMethod[k] != nil
+//@   loop 1 invariant !did(call (verificationMethodValidator).verifyThumbprint #1) || isNilIface(ret(call (verificationMethodValidator).verifyThumbprint #1))
+//@   loop 2 invariant !did(call (verificationMethodValidator).verifyThumbprint #2) || isNilIface(ret(call (verificationMethodValidator).verifyThumbprint #2))
+//@   loop 3 invariant !did(call (verificationMethodValidator).verifyThumbprint #2) || isNilIface(ret(call (verificationMethodValidator).verifyThumbprint #2))
+//@   call (verificationMethodValidator).verifyThumbprint #1 requires [after-id-check-of-the-same-method] isNilIface(ret(call verifyDocumentEntryID #1))
+//@        && same(arg(call verifyDocumentEntryID #1, 0), document.ID) && same(arg(call verifyDocumentEntryID #1, 1), arg(1).ID.URI()) && arg(1) == method
+//@   call (verificationMethodValidator).verifyThumbprint #2 requires [relationship-method-after-id-check] isNilIface(ret(call verifyDocumentEntryID #2))
+//@        && same(arg(call verifyDocumentEntryID #2, 0), document.ID) && same(arg(call verifyDocumentEntryID #2, 1), arg(1).ID.URI()) && arg(1) == relationship.VerificationMethod
+//@   ensures [listed-and-relationship-methods-all-checked] isNilIface(result) ==> $done1 && $done2
+
+// ---- C09: who controls a document ----
+
+//@ func resolve
+//@   prop C09
+//@   assume-benign
+//@   ensures isNilIface(result.2) ==> result.0 != nil
+//@ func resolver.IsDeactivated
+//@   trusted
+//@   pure heap
+
+// The document itself counts as its controller only if it declares no controller at all or lists
+// itself, and in both cases only if it has capability-invocation keys; every other controller is the
+// document resolved (through resolve, with the caller's metadata) for a DID the document declares.
+//@ func resolveControllers
+//@   prop C09
+//@   loop 1 invariant true
+//@   loop 2 invariant true
+//@   loop 3 invariant true
+//@   call append #1 requires [self-controlled-without-declared-controller] len(doc.Controller) == 0 && len(doc.CapabilityInvocation) > 0
+//@        && same(arg(0), leaves) && len(arg(1)) == 1 && same(arg(1)[0], doc)
+//@   call append #2 requires [self-controlled-when-listing-itself] len(doc.CapabilityInvocation) > 0 && doc.ID.Equals(ctrlDID)
+//@        && (exists k int :: 0 <= k && k < len(doc.Controller) && same(ctrlDID, doc.Controller[k]))
+//@        && same(arg(0), leaves) && len(arg(1)) == 1 && same(arg(1)[0], doc)
+//@   call append #3 requires [only-declared-foreign-controllers-are-resolved] !doc.ID.Equals(ctrlDID)
+//@        && (exists k int :: 0 <= k && k < len(doc.Controller) && same(ctrlDID, doc.Controller[k]))
+//@        && same(arg(0), refsToResolve) && len(arg(1)) == 1 && same(arg(1)[0], ctrlDID)
+//@   call append #4 requires [other-controllers-are-resolved-documents] isNilIface(ret(call resolve #1).2)
+//@        && same(arg(call resolve #1, 1), ref) && arg(call resolve #1, 0) == didResolver && arg(call resolve #1, 2) == metadata && arg(call resolve #1, 3) == depth
+//@        && same(arg(0), leaves) && len(arg(1)) == 1 && same(arg(1)[0], *ret(call resolve #1).0)
